@@ -188,6 +188,21 @@ Example T_C18_example_map_modes :
 Proof. exact ex_map_modes. Qed.
 Print Assumptions T_C18_example_map_modes.
 
+(* duplicate document keys (JSON / XML objects may carry a name twice; exercised by the correspondence for both): the
+   theorems above quantify over all documents, those included; what the object scopes do with them is `member`
+   (ArchModel.v): every request for the name is answered by its FIRST member, whatever follows (the same rule as
+   JxHistModel.find_member of the jx family, Properties_C03jx.v); a map target sees the key once per occurrence in
+   VisitKeys and loads the first member's value each time *)
+Theorem T_C18_duplicate_document_keys : forall k d l1 l2,
+  (forall k' d', In (k', d') l1 -> dkey_eqb k k' = false) -> member k (l1 ++ (k, d) :: l2) = Some d.
+Proof. exact member_first. Qed.
+Print Assumptions T_C18_duplicate_document_keys.
+
+Example T_C18_example_duplicate_keys :
+  load_map_mode json_arch default_pols Clean KInt TInt []%Z (DMap [(DKStr [56]%N, DInt 1); (DKStr [56]%N, DInt 2)]) = Ok ([(8, 1)]%Z, true).
+Proof. vm_compute. reflexivity. Qed.
+Print Assumptions T_C18_example_duplicate_keys.
+
 (* ------------------------------------------------------------------------------------------------------------ *)
 (* The XML archive (pugixml): xml_arch (ArchModel.v).  T_C18_all_types_refuted / _outside and the container
    theorems above are stated for every archive flavour; spelled out for XML: *)
